@@ -111,6 +111,12 @@ Section env_steps.
     - rewrite pay_ds_app, pay_ds_pubs, app_nil_r. apply (i_pay_nodup _ _ _ Hinv).
     - intros d v Ho. destruct (i_out _ _ _ Hinv _ _ Ho) as (? & ? & ? & ? & ?). repeat split; try done.
       by rewrite pay_ds_app, pay_ds_pubs, app_nil_r.
+    - apply (i_phase _ _ _ Hinv).
+    - intros t' d Ht' Hd. rewrite pub_ds_app, pub_ds_pubs. apply elem_of_union in Ht' as [Ht'|Ht'].
+      + apply elem_of_singleton in Ht' as ->. right. apply elem_of_app. right. by apply outs_list_spec.
+      + destruct (i_fin_ev _ _ _ Hinv _ _ Ht' Hd) as [?|?]; [by left|right; apply elem_of_app; by left].
+    - apply (i_seen_ext _ _ _ Hinv).
+    - intros d Hd. rewrite pay_ds_app, pay_ds_pubs, app_nil_r. by apply (i_fetched _ _ _ Hinv).
   Qed.
 
   Lemma pub_ds_snoc_x l h d : pub_ds (l ++ [EXfer h d]) = pub_ds l.
@@ -193,6 +199,10 @@ Section env_steps.
     - intros d v Hin. apply elem_of_app in Hin as [Hin|Hin]; [by apply (i_pay _ _ _ Hinv)|by apply elem_of_list_singleton in Hin].
     - rewrite pay_ds_snoc_x. apply (i_pay_nodup _ _ _ Hinv).
     - intros d v Ho. rewrite pay_ds_snoc_x. by apply (i_out _ _ _ Hinv).
+    - apply (i_phase _ _ _ Hinv).
+    - intros t d Ht Hd. rewrite pub_ds_snoc_x. by apply (i_fin_ev _ _ _ Hinv t).
+    - apply (i_seen_ext _ _ _ Hinv).
+    - intros d Hd. rewrite pay_ds_snoc_x. by apply (i_fetched _ _ _ Hinv).
   Qed.
 
   Lemma inv_fetch s d0 src fs :
@@ -249,6 +259,16 @@ Section env_steps.
       + intros Hin. apply Hnf. apply elem_of_list_fmap in Hin as (y & -> & Hy). apply elem_of_list_fmap. exists y. auto.
       + rewrite pay_ds_snoc_p. intros Hin. apply elem_of_app in Hin as [Hin|Hin]; [done|].
         apply elem_of_list_singleton in Hin as ->. congruence.
+    - apply (i_phase _ _ _ Hinv).
+    - intros t d Ht Hd. rewrite pub_ds_snoc_p. by apply (i_fin_ev _ _ _ Hinv t).
+    - apply (i_seen_ext _ _ _ Hinv).
+    - intros d Hd. rewrite pay_ds_snoc_p. destruct (i_fetched _ _ _ Hinv _ Hd) as [Hf|[?|?]].
+      + apply elem_of_list_fmap in Hf as ([d1 s1] & -> & Hf). simpl. rewrite (list_remove_elem _ _ _ _ Hrm) in Hf.
+        destruct Hf as [[= -> ->]|Hf].
+        * right. left. apply elem_of_app. right. by apply elem_of_list_singleton.
+        * left. apply elem_of_list_fmap. by exists (d1, s1).
+      + right. left. apply elem_of_app. by left.
+      + by right; right.
   Qed.
 
   Lemma inv_purge s h0 d0 ps :
@@ -299,5 +319,9 @@ Section env_steps.
     - apply (i_pay _ _ _ Hinv).
     - apply (i_pay_nodup _ _ _ Hinv).
     - apply (i_out _ _ _ Hinv).
+    - apply (i_phase _ _ _ Hinv).
+    - apply (i_fin_ev _ _ _ Hinv).
+    - apply (i_seen_ext _ _ _ Hinv).
+    - apply (i_fetched _ _ _ Hinv).
   Qed.
 End env_steps.
